@@ -5,9 +5,9 @@ from run import selftest as W
 from run import witnesses2 as W2
 
 PROPERTY = "C02"
-LEAN_MODULES = ["LccModel.Props.C02", "LccModel.Props.C02Run"]
-PROPS_FILES = ["LccModel/Props/C02.lean", "LccModel/Props/C02Run.lean"]
-NAMESPACES = {"LccModel/Props/C02.lean": "LccModel.C02", "LccModel/Props/C02Run.lean": "LccModel.C02Run"}
+LEAN_MODULES = ["LccModel.Props.C02", "LccModel.Props.C02Run", "LccModel.Props.C02Exit"]
+PROPS_FILES = ["LccModel/Props/C02.lean", "LccModel/Props/C02Run.lean", "LccModel/Props/C02Exit.lean"]
+NAMESPACES = {"LccModel/Props/C02.lean": "LccModel.C02", "LccModel/Props/C02Run.lean": "LccModel.C02Run", "LccModel/Props/C02Exit.lean": "LccModel.C02Exit"}
 DRIVER = "drivers/Run.lean"
 TRUSTED_BASE = RUN_TRUSTED + ["session stream: harness/props/_session.py drives the real Session from real threads in lock-step (drivers/Session.lean)", "writer status rule: Lemmas/Writer.lean status_passed_iff (C20's run_producible_of_fold) — the report status is computed from the same events"]
 ASSUMPTIONS = RUN_ASSUMPTIONS + []
@@ -45,5 +45,16 @@ class Run(PropRunStream):
     p_interrupt = 0.1
 
 
+from props._cli import CliStream, CLI_TRUSTED, CLI_RULE
+
+
+class Cli(CliStream):
+    name = "C02.cli"
+
+
+TRUSTED_BASE = TRUSTED_BASE + CLI_TRUSTED
+RULE = RULE + "; " + CLI_RULE
+
+
 def streams(ctx):
-    return [Sess(), Run()]
+    return [Sess(), Run(), Cli()]
